@@ -1460,7 +1460,11 @@ fn gen_rule(r: &mut Rng, n_cls: usize, n_prop: usize) -> RuleSpec {
     }
     let p = r.below(n_prop);
     let q = (p + 1 + r.below(n_prop.max(2) - 1)) % n_prop.max(2);
-    match r.weighted(&[6, 3, 3, 3, 2, 3, 3, 2, 1]) {
+    match r.weighted(&[6, 3, 3, 3, 2, 3, 3, 2, 1, 2, 1]) {
+        // variable predicates: in the conclusion too (a derived fact may then equal a raw item
+        // of any predicate), or in the premise only
+        9 => RuleSpec { kind: "symmetric_for_any_predicate", prem: vec![(v("x"), v("p"), v("y"))], concl: vec![(v("y"), v("p"), v("x"))] },
+        10 => RuleSpec { kind: "any_predicate_to_property", prem: vec![(v("x"), v("p"), v("y"))], concl: vec![(v("x"), c(&prop(q)), v("y"))] },
         0 => RuleSpec { kind: "subclass", prem: vec![(v("x"), ty(), c(&cls(ci)))], concl: vec![(v("x"), ty(), c(&cls(cj)))] },
         1 => RuleSpec { kind: "domain", prem: vec![(v("x"), c(&prop(p)), v("y"))], concl: vec![(v("x"), ty(), c(&cls(ci)))] },
         2 => RuleSpec { kind: "range", prem: vec![(v("x"), c(&prop(p)), v("y"))], concl: vec![(v("y"), ty(), c(&cls(ci)))] },
@@ -1477,7 +1481,7 @@ fn instantiate(p: &Pat, r: &mut Rng, n_ent: usize) -> LT {
     let mut env: BTreeMap<String, String> = BTreeMap::new();
     let mut g = |x: &PT, r: &mut Rng| match x {
         PT::C(cst) => cst.clone(),
-        PT::V(n) => env.entry(n.clone()).or_insert_with(|| ent(r.below(n_ent))).clone(),
+        PT::V(n) => env.entry(n.clone()).or_insert_with(|| if n == "p" { prop(r.below(2)) } else { ent(r.below(n_ent)) }).clone(),
     };
     (g(&p.0, r), g(&p.1, r), g(&p.2, r))
 }
